@@ -979,8 +979,10 @@ class Model(Object):
             group_list = [group_list]
 
         for group in group_list:
+            if isinstance(group, str) and group in self.groups:
+                group = self.groups.get_by_id(group)
             # make sure the group is in the model
-            if group.id not in self.groups:
+            if getattr(group, "id", group) not in self.groups:
                 logger.warning(f"{group!r} not in {self!r}. Ignored.")
             else:
                 self.groups.remove(group)
